@@ -281,6 +281,12 @@ class Inliner:
                 cands = [x for x in repo.funcs.get(f"{owner.parent.qual}.{f.id}", [])]
             if not cands:
                 cands = [x for x in repo.funcs.get(f.id, []) if x.module == owner.module and x.cls is None]
+            if not cands:
+                # a new module-level function of another module of the package, imported here by that name
+                imported = any(isinstance(st, ast.ImportFrom) and any((a.asname or a.name) == f.id and a.name == f.id for a in st.names)
+                               for st in ast.walk(repo.trees[owner.module]) if isinstance(st, ast.ImportFrom))
+                if imported:
+                    cands = [x for x in repo.funcs.get(f.id, []) if x.cls is None and x.parent is None]
             if len(cands) == 1 and self.is_new(cands[0]):
                 return cands[0], False, None
         return None
